@@ -224,6 +224,13 @@ class FrameAnalysis(object):
         self.method_index = None
         self.ret = []
         self.functions_seen = set()
+        # recursion: what a recursive call that is cut off returns.  summaries[fnode] = the join of the values the function
+        # returned in the PREVIOUS pass of the analysis (None: first pass - nothing yet); check_frame repeats the analysis until
+        # the summaries no longer change, so the last pass uses a post-fixpoint of the return values
+        self.summaries = {}
+        self.returned = {}          # fnode -> join of the return values of all its activations in this pass
+        self.cut = set()            # functions at which recursion was cut in this pass
+        self.summary_mode = True
 
     # ---------------------------------------------------------------------------------------- effects
     def effect(self, v, node, mod, what):
@@ -475,6 +482,12 @@ class FrameAnalysis(object):
         depth = sum(1 for f, _ in self.stack if f is fnode)
         if depth >= 2 or len(self.stack) > 40:
             self.assumed.add("recursion / call depth cut at %s: the inner activation is assumed to have no effects beyond those of the outer one" % getattr(fnode, "name", "<lambda>"))
+            self.cut.add(fnode)
+            if self.summary_mode and len(self.stack) <= 40:
+                # the value the function was seen to return in the previous pass (fixpoint iteration in check_frame), joined
+                # with the arguments' elements only when the function can return (parts of) its arguments
+                prev = self.summaries.get(fnode)
+                return prev if prev is not None else AV()
             return shallow(*(args + list(kwargs.values())))
         self.functions_seen.add("%s::%s" % (os.path.relpath(fmod.path, REPO), getattr(fnode, "name", "<lambda>")))
         sc = Scope(fmod, closure)
@@ -525,7 +538,10 @@ class FrameAnalysis(object):
             is_gen = any(isinstance(n, (ast.Yield, ast.YieldFrom)) for n in _walk_own(fnode))
             if is_gen and r is not None:
                 r = AV((), r.taint())
-            return r if r is not None else AV()
+            r = r if r is not None else AV()
+            prev_r = self.returned.get(fnode)
+            self.returned[fnode] = r if prev_r is None else join(prev_r, r)
+            return r
         finally:
             self.ret = saved_ret
             self.stack.pop()
@@ -1331,12 +1347,46 @@ def check_frame(target, modifies=(), types=None, values=None, use_defaults=()):
     for p in a.kwonlyargs:
         kw[p.arg] = AV({p.arg}, {p.arg})
     err = None
-    try:
-        A.call_function(fnode, mod, None, args, kw, fnode, clsnode)
-    except Budget:
-        err = "analysis budget exhausted"
-    except RecursionError:
-        err = "analysis recursion limit"
+
+    def sig(v, depth=0):
+        if v is None:
+            return None
+        return (tuple(sorted(v.selfs)), tuple(sorted(v.cont)), v.kind, v.nullable,
+                sig(v.elem, depth + 1) if (v.elem is not None and depth < 3) else None,
+                tuple(sorted((k, sig(f, depth + 1)) for k, f in v.fields.items())) if (v.fields and depth < 3) else None,
+                tuple(sig(f, depth + 1) for f in v.items) if (v.items and depth < 3) else None)
+
+    summaries, converged = {}, False
+    for _pass in range(6):
+        A = FrameAnalysis()
+        A.summaries = summaries
+        pass_args, pass_kw = _copy_avs(args), dict(zip(kw, _copy_avs(list(kw.values()))))
+        try:
+            A.call_function(fnode, mod, None, pass_args, pass_kw, fnode, clsnode)
+        except Budget:
+            err = "analysis budget exhausted"
+            break
+        except RecursionError:
+            err = "analysis recursion limit"
+            break
+        new = dict((f, A.returned.get(f)) for f in A.cut)
+        if all(sig(new[f]) == sig(summaries.get(f)) for f in new):
+            converged = True
+            break
+        summaries = dict(summaries)
+        summaries.update(new)
+    if err is None and not converged:
+        # no fixpoint of the return summaries within the passes allowed: fall back to the coarse rule (a cut recursive call
+        # returns a container of its arguments' elements), which needs no iteration
+        A = FrameAnalysis()
+        A.summary_mode = False
+        try:
+            A.call_function(fnode, mod, None, args, kw, fnode, clsnode)
+        except Budget:
+            err = "analysis budget exhausted"
+        except RecursionError:
+            err = "analysis recursion limit"
+        A.assumed.add("return summaries of recursive functions did not stabilise: coarse rule used")
     eff = {}
     for rec in A.effects:
         eff.setdefault(rec[0], [])
@@ -1345,6 +1395,16 @@ def check_frame(target, modifies=(), types=None, values=None, use_defaults=()):
     return {"params": params, "effects": eff, "assumed": sorted(A.assumed), "global_writes": sorted(set(A.global_writes)),
             "functions": sorted(A.functions_seen), "error": err, "steps": A.steps,
             "file": mod.path, "line": fnode.lineno, "sha": mod.sha(fnode)}
+
+
+def _copy_avs(vs):
+    """fresh argument roots for another pass (the objects are mutated by the analysis)"""
+    out = []
+    for v in vs:
+        c = AV(set(v.selfs), set(v.cont), dict(v.fields) if v.fields else v.fields, list(v.items) if v.items else v.items, v.fn, v.cls, v.site, v.const, v.kind)
+        c.nullable, c.elem = v.nullable, v.elem
+        out.append(c)
+    return out
 
 
 def check_owned(target, fields, use_defaults=()):
